@@ -490,7 +490,7 @@ def check_property(pid, P, MODELS, tier, seed):
     new, matched = [], {}
     for r in results:
         for v in r["violations"]:
-            if v["prop"] != pid:
+            if v["prop"] != pid and v["mon"] not in P.get("also", ()):
                 continue
             k = match_known(v, known)
             if k:
@@ -530,7 +530,7 @@ def write_evidence(pid, P, MODELS, tier, seed, results, nviol, matched, wall):
     moncnt = {}
     for r in results:
         for k, v in r["monitor_evaluations"].items():
-            if k.startswith(pid):
+            if k.startswith(pid) or k in P.get("also", ()):
                 moncnt[k] = moncnt.get(k, 0) + v
     samples = []
     for r in results:
@@ -579,7 +579,7 @@ def replay(pid, P, MODELS, path):
     open(beh, "w").write(json.dumps(dict(cfg=rp.get("cfg", {}), ops=rp["ops"])) + "\n")
     r = run_model(model, M, "quick", 0, wdir, extra_behaviours=beh)
     known = load_known()
-    bad = [v for v in r["violations"] if v["prop"] == pid and not match_known(v, known)]
+    bad = [v for v in r["violations"] if (v["prop"] == pid or v["mon"] in P.get("also", ())) and not match_known(v, known)]
     for v in r["violations"]:
         log("  replayed: monitor %s key %s at step %d%s" % (v["mon"], v["key"], v["i"],
                                                           " (known finding)" if match_known(v, known) else ""))
